@@ -274,6 +274,12 @@ pub fn pair(t: &mut Tape, nw: usize, dw: usize) -> (Limbs, Limbs) {
     }
     let d = divisor(t, dw);
     let n = dividend(t, nw, &d);
+    let (mut n, mut d) = (n, d);
+    // a limb tied to an integer literal of the source under test (fuzzer-style dictionary)
+    gen::dict_salt(t, &mut n, &mut d);
+    if is_zero(&d) {
+        d[0] = 1;
+    }
     (n, d)
 }
 
